@@ -223,3 +223,36 @@ func init() {
 		return th.m.ts.Bool(a.vec == b.vec && a != b)
 	}
 }
+
+// Registry model: a collector is rejected iff a collector with the same fully-qualified
+// name was registered before (the reporter gives every kind its own help string, so two
+// vectors of one name never have identical descriptors: the real registry rejects them).
+func init() {
+	I := intrinsics
+	I[promPkg+".NewRegistry"] = func(th *Thread, fn *ssa.Function, args []Value) Value {
+		cell := new(Value)
+		*cell = th.m.zero(deref(fn.Signature.Results().At(0).Type()))
+		return cell
+	}
+	I["(*"+promPkg+".Registry).Register"] = func(th *Thread, fn *ssa.Function, args []Value) Value {
+		m := th.m
+		reg := args[0].(*Value)
+		c := args[1].(Iface)
+		vp, _ := c.V.(*Value)
+		v := m.promVecOf(vp)
+		if v == nil {
+			m.unsupported("Register of a collector that is not a modelled vector")
+		}
+		if m.promRegistered == nil {
+			m.promRegistered = map[*Value]map[string]bool{}
+		}
+		if m.promRegistered[reg] == nil {
+			m.promRegistered[reg] = map[string]bool{}
+		}
+		if m.promRegistered[reg][v.name] {
+			return m.newError(Str{C: "a previously registered descriptor with the same fully-qualified name has different label names or a different help string"})
+		}
+		m.promRegistered[reg][v.name] = true
+		return Iface{}
+	}
+}
